@@ -214,7 +214,7 @@ fn synth(op: &str, a: &Args, cs: &ConstraintSystemRef<Fq>) -> R<String> {
             let ev = ElementVar::encode_to_curve(&rv).map_err(se)?;
             Ok(elem_value(&ev))
         }
-        "add" | "sub" | "iseq" | "enforce_eq" | "enforce_neq" | "select" | "add_asg" | "sub_asg" | "add_ref" | "sub_ref" | "add_const" | "sub_const"
+        "add" | "sub" | "iseq" | "enforce_eq" | "enforce_neq" | "cenforce_eq" | "cenforce_neq" | "select" | "add_asg" | "sub_asg" | "add_ref" | "sub_ref" | "add_const" | "sub_const"
         | "add_const_asg" | "sub_const_asg" => {
             let x = a.elem("a")?;
             let y = a.elem("b")?;
@@ -234,6 +234,17 @@ fn synth(op: &str, a: &Args, cs: &ConstraintSystemRef<Fq>) -> R<String> {
                 "iseq" => Ok(xv.is_eq(&yv).map_err(se)?.value().map(|b| if b { "1" } else { "0" }).unwrap_or("?").to_string()),
                 "enforce_eq" => { xv.enforce_equal(&yv).map_err(se)?; Ok("-".into()) }
                 "enforce_neq" => { xv.enforce_not_equal(&yv).map_err(se)?; Ok("-".into()) }
+                "cenforce_eq" | "cenforce_neq" => {
+                    // conditional enforcement: the flag as a witness, a public input or a constant (`cmode`)
+                    let c = a.get("c").unwrap_or("0") == "1";
+                    let cv = match a.get("cmode").unwrap_or("witness") {
+                        "const" => Boolean::constant(c),
+                        "input" => Boolean::new_input(cs.clone(), || Ok(c)).map_err(se)?,
+                        _ => Boolean::new_witness(cs.clone(), || Ok(c)).map_err(se)?,
+                    };
+                    if op == "cenforce_eq" { xv.conditional_enforce_equal(&yv, &cv).map_err(se)?; } else { xv.conditional_enforce_not_equal(&yv, &cv).map_err(se)?; }
+                    Ok("-".into())
+                }
                 _ => {
                     let c = a.get("c").unwrap_or("0") == "1";
                     let cv = Boolean::new_witness(cs.clone(), || Ok(c)).map_err(se)?;
